@@ -358,6 +358,8 @@ func ParseURI(uri SIPStr, puri *PsipURI) (ErrorURI, int) {
 			case '[': // ipv6 addr: [ipv6]
 				state = uHost61
 				s = i
+				// '[' is not allowed in the user part: no late '@' possible
+				foundUser = true
 			case ':', ']', '@': // invalid char at uri start (empty user)
 				return ErrURIBadChar, i
 			default:
